@@ -21,11 +21,11 @@ ASSUMPTIONS = ["the subshell body is drawn from the mutator grammar (assignment/
 SECTIONS = ["env", "funcs", "options", "aliases", "traps", "working_dir", "directory_stack", "args", "open_files"]
 VOLATILE = {"_", "BASH_COMMAND", "LINENO", "RANDOM", "SRANDOM", "SECONDS", "PIPESTATUS", "EPOCHSECONDS", "EPOCHREALTIME",
             "PWD", "OLDPWD", "SHELLOPTS", "BASHOPTS", "DIRSTACK", "BASH_ARGC", "BASH_ARGV", "BASH_LINENO", "BASH_SOURCE",
-            "FUNCNAME", "BASHPID", "BASH_SUBSHELL", "COPROC", "COPROC_PID", "__x", "BASH_ALIASES"}
+            "FUNCNAME", "BASHPID", "BASH_SUBSHELL", "COPROC", "COPROC_PID", "__x", "BASH_ALIASES", "BASH_CMDS"}
 
 PRELUDE = r"""umask 022
 cd /var/tmp
-v0=old; v1=old; export v2=old
+v0=old; v1=old; export v2=old; arr=(a b); n=0
 f0() { echo f0; }
 alias a0=b0
 trap 'echo u2' USR2
@@ -47,7 +47,7 @@ echo "##ulimit"; ulimit -a
 """
 
 SETUP = """cd /var/tmp
-v0=old; v1=old; export v2=old
+v0=old; v1=old; export v2=old; arr=(a b); n=0
 f0() { echo f0; }
 alias a0=b0
 trap 'echo u2' USR2
@@ -102,6 +102,10 @@ MUTS = {
     "args": [("set -- q1 q2 q3", "q"), ("shift", "shift")],
     "open_files": [("exec 7>/dev/null", "7"), ("exec 8</dev/null", "8")],
 }
+# stages that are a single simple command without a command word
+BARE = [("F", "env", "v1=new", "v1"), ("F", "env", "v1+=x", "v1+"), ("F", "env", "arr[1]=v", "arr1"),
+        ("F", "env", "n=$((n+5))", "n5"), ("F", "env", ": $((n+=5))", "n+5"), ("F", "env", ": ${v9:=w}", "v9"),
+        ("F", "env", "v1=$((n+=7))", "v1n"), ("F", "env", "v8=a v1=b", "v8v1"), ("N", "> /dev/null"), ("N", "7>/dev/null")]
 CTXS = ["paren", "cmdsubst", "backquote", "pipefirst", "pipelast", "background", "procin", "coproc"]
 
 
@@ -135,6 +139,11 @@ def body_text(body):
 
 
 def wrap(ctx, inner):
+    if ctx.endswith("!bare"):      # the stage is the simple command itself (assignment-only / redirect-only / `:` with a word)
+        base = ctx.split("!")[0]
+        return {"pipefirst": "%s | /bin/cat >/dev/null", "pipemid": ": | %s | /bin/cat >/dev/null", "pipelast": ": | %s"}[base] % inner
+    if ctx == "pipemid":
+        return ": | {\n%s\n} | /bin/cat >/dev/null" % inner
     if ctx == "cur":
         return "{\n%s\n}" % inner
     if ctx == "paren":
@@ -170,7 +179,23 @@ def mut_text(m):
         return "return " + m[1]
     if m[0] == "C":
         return "__f"            # defined before the first dump (see script())
+    if m[0] == "N":
+        return m[1]
+    if m[0] == "B":
+        return bg_text(m[1], m[2], m[3])
     return wrap(m[1], body_text(m[2]))
+
+
+COLLECT = {"wait": "wait", "wait%1": "wait %1", "wait%%": "wait %%", "wait%+": "wait %+", "wait$!": "wait $!",
+           "wait-n": "/bin/sleep 0.3\nwait -n", "jobs": "/bin/sleep 0.3\njobs", "none": "/bin/sleep 0.3", "fg": "fg"}
+COLLECT_TOK = {"wait": "wait", "wait%1": "spec", "wait%%": "spec", "wait%+": "spec", "wait$!": "pid", "wait-n": "none",
+               "jobs": "jobs", "none": "none", "fg": "fg"}
+
+
+def bg_text(form, collect, body):
+    inner = body_text(body)
+    job = {"brace": "{\n%s\n} &" % inner, "func": "__j &", "loop": "while :; do\n%s\nbreak\ndone &" % inner}[form]
+    return job + "\n" + COLLECT[collect]
 
 
 def mut_tok(m):
@@ -189,9 +214,11 @@ def mut_tok(m):
         return ["X", m[1]]
     if m[0] == "R":
         return ["R", m[1]]
-    body = m[1] if m[0] == "C" else m[2]
-    n = sum(len(x[2]) if x[0] == "P" else 1 for x in body)
-    out = ["C", str(n)] if m[0] == "C" else ["S", m[1], str(n)]
+    if m[0] == "N":
+        return []
+    body = m[1] if m[0] == "C" else m[3] if m[0] == "B" else m[2]
+    n = sum(len(x[2]) if x[0] == "P" else 0 if x[0] == "N" else 1 for x in body)
+    out = ["C", str(n)] if m[0] == "C" else ["B", COLLECT_TOK[m[2]], str(n)] if m[0] == "B" else ["S", m[1].split("!")[0], str(n)]
     for x in body:
         out += mut_tok(x)
     return out
@@ -204,7 +231,8 @@ def reaches_exit(body):
 
 
 def has(body, kind):
-    return any(m[0] == kind or (m[0] == "S" and has(m[2], kind)) or (m[0] == "C" and has(m[1], kind)) for m in body)
+    return any(m[0] == kind or (m[0] == "S" and has(m[2], kind)) or (m[0] == "C" and has(m[1], kind)) or
+               (m[0] == "B" and has(m[3], kind)) for m in body)
 
 
 # ---- options that decide where a pipeline stage runs
@@ -219,7 +247,7 @@ def opts_text(opts):
 def is_subshell(opts, c):
     """bash: the last stage of a pipeline runs in the current shell iff lastpipe is set and job control is not active;
     every other context is always a subshell (Coq: Subshell.Model.is_subshell)"""
-    return not (c == "pipelast" and "l" in opts and "m" not in opts)
+    return not (c.split("!")[0] == "pipelast" and "l" in opts and "m" not in opts)
 
 
 def spec_run(opts, body, cur, acc):
@@ -242,6 +270,8 @@ def spec_run(opts, body, cur, acc):
         elif k == "C":
             if spec_run(opts, m[1], cur, acc) == "exit":
                 return "exit"
+        elif k == "B":
+            spec_run(opts, m[3], False, acc)           # a background job is a subshell, however it is collected
         elif k == "S":
             if is_subshell(opts, m[1]):
                 spec_run(opts, m[2], False, acc)       # nothing but status and output comes back
@@ -260,12 +290,17 @@ def no_args(body):
 
 
 def top_nodes(kind, body):
+    if kind.startswith("bg:"):
+        _, form, collect = kind.split(":")
+        return [("B", form, collect, body)]
     return body if kind == "cur" else [("C", body)] if kind == "call" else [("S", kind, body)]
 
 
 def script(opts, kind, body):
     fdef = "__f() {\n%s\n}\n" % body_text(body) if kind == "call" else ""
-    main = wrap("cur", body_text(body)) if kind == "cur" else "__f" if kind == "call" else mut_text(("S", kind, body))
+    if kind.startswith("bg:") and kind.split(":")[1] == "func":
+        fdef = "__j() {\n%s\n}\n" % body_text(body)
+    main = wrap("cur", body_text(body)) if kind == "cur" else "__f" if kind == "call" else mut_text(top_nodes(kind, body)[0])
     return (PRELUDE + opts_text(opts) + fdef + "echo @@BEFORE\n__dump \"$@\"\necho @@MID\n" + main +
             "\necho @@AFTER\n__dump \"$@\"\necho @@END\n")
 
@@ -347,6 +382,25 @@ def gen_cases(ctx):
             for flow in (("R", "7"), ("X", "3"), ("R", "0")):
                 cases.append((opts, "call", [("S", c, [flow]), marker]))
                 cases.append((opts, "call", [("S", c, [("F", "traps", "trap 'echo u1' USR1", "u1"), flow, marker])]))
+    # assignment-only / redirect-only / word-only stages at every stage position
+    for m in BARE:
+        if m[0] == "F":
+            cases.append(("", "cur", [m]))
+    for opts in ("", "l", "lm", "p", "pl"):
+        for pos in ("pipefirst!bare", "pipemid!bare", "pipelast!bare"):
+            for m in BARE:
+                cases.append((opts, pos, [m]))
+    for m in singles:
+        cases.append(("", "pipemid", [m]))
+    # background jobs ending via exit / return / break, and every way of collecting them
+    for form in ("brace", "func", "loop"):
+        for collect in ("wait", "wait%1", "wait%%", "wait%+", "wait$!", "wait-n", "jobs", "none"):
+            for ending in ([("X", "3")], [("R", "4")], []):
+                cases.append(("", "bg:%s:%s" % (form, collect), [marker] + ending))
+            cases.append(("", "bg:%s:%s" % (form, collect), [rng.choice([x for x in singles if x[0] == "F"]), ("X", "2")]))
+        for ending in ([("X", "3")], [("R", "4")], []):
+            cases.append(("m", "bg:%s:fg" % form, [marker] + ending))
+            cases.append(("m", "bg:%s:wait%%1" % form, [marker] + ending))
     # random sequences in every context, under random options
     for _ in range(260 if ctx.quick else 4000):
         c = rng.choice(CTXS + ["pipefirst", "pipelast", "call"])
@@ -376,7 +430,8 @@ def check_case(opts, kind, body, d):
     b, a = d
     acc = {"sections": set(), "umask": None, "nofile": None}
     spec_run(opts, top_nodes(kind, body), True, acc)
-    where = "a %s subshell" % kind if kind not in ("call",) and is_subshell(opts, kind) else \
+    where = "a background job (%s)" % kind if kind.startswith("bg:") else \
+        "a %s subshell" % kind if kind not in ("call",) and is_subshell(opts, kind) else \
         "a function call" if kind == "call" else "the last stage under lastpipe (current shell)"
     where += " [%s]" % (opts_text(opts).replace("\n", "; ").strip() or "no options")
     for s in sorted(set(b) | set(a)):
@@ -424,8 +479,11 @@ def run(ctx):
         if d is None and err.startswith("exited"):
             legit = kind != "cur" and spec_run(opts, top_nodes(kind, body), True, {"sections": set(), "umask": None, "nofile": None}) == "exit"
             if not legit:
-                specv.append({"input": {"script": text[len(PRELUDE):]},
-                              "why": "the parent shell itself exited (%s) although every `exit` of the program is inside a subshell (%s context)" % (err, kind)})
+                v = {"input": {"script": text[len(PRELUDE):]},
+                     "why": "the parent shell itself exited (%s) although every `exit` of the program is inside a subshell (%s context)" % (err, kind)}
+                if kind.startswith("bg:") and kind.endswith(":fg") and has(body, "X"):
+                    v["known"] = "KF-C12-fg-exit"
+                specv.append(v)
             model_cases.append(case_tokens(opts, kind, body, "18", "0")); obs.append(["exited"])
             continue
         if d is None:
@@ -466,7 +524,7 @@ def run(ctx):
     # concurrent parent activity (sampled)
     conc = concurrent_cases(ctx)
     specv += conc["violations"]
-    ser = serde_view(ctx, [(k, b) for o, k, b in cases if o == "" and k != "call" and not has(b, "R")])
+    ser = serde_view(ctx, [(k, b) for o, k, b in cases if o == "" and k in CTXS + ["cur"] and not has(b, "R") and not has(b, "N")])
     specv += ser["violations"]
     seen, outv = {}, []
     for v in specv:
@@ -494,7 +552,11 @@ def run(ctx):
         "extraction_crosscheck": {"cases": len(samp), "agree": len(samp) - len(xbad)},
         "model_mismatches": mism,
         "spec_violations": outv,
-        "notes": "concurrent samples: %d; in-process serde comparisons: %d over the fields %s" % (conc["n"], ser["n"], ser["fields"]),
+        "notes": "proof-backed (Coq model + theorems + correspondence on which dump sections change, umask/nofile, parent exit): "
+                 "all subshell contexts, option-dependent stage classification, background jobs x collection, command-less "
+                 "stages; the reference semantics `spec_run` (python) decides the verdict on the code's own full dumps for every "
+                 "case; differential vs bash: none in this property (the expectations are isolation statements, not bash output). "
+                 "concurrent samples: %d; in-process serde comparisons: %d over the fields %s" % (conc["n"], ser["n"], ser["fields"]),
     }
 
 
